@@ -273,6 +273,10 @@ func (srv *server) Status() int32 {
 }
 
 func (srv *server) sessionTerminatedLocked(clientID string, reason SessionTerminatedReason) (err error) {
+	// A delayed will message is published when the session ends, if that is before the delay has passed.
+	if w, ok := srv.willMessage[clientID]; ok {
+		w.signal(true)
+	}
 	err = srv.removeSessionLocked(clientID)
 	if srv.hooks.OnSessionTerminated != nil {
 		srv.hooks.OnSessionTerminated(context.Background(), clientID, reason)
